@@ -108,7 +108,11 @@ OnStep(s, e, ln) ==
                !.c = imp.c, !.cOK = s.cOK /\ imp.ok,
                !.drift = IF s.cOK /\ ~imp.ok THEN s.drift \cup {<<s.case, ln, "step">>} ELSE s.drift,
                !.viol = s.viol \cup Bad(s, ln, new, "step")
-                          \cup Bad(s, ln, IF c09 THEN Enforce \cap {"C09"} ELSE {}, "flush not decodable")]
+                          \cup Bad(s, ln, IF c09 THEN Enforce \cap {"C09"} ELSE {}, "flush not decodable")
+                          \* a wake-up delivered while the chunker's mutex is held: a waker that polls the body
+                          \* inline, or takes a lock the consumer holds while it polls, never returns -- the
+                          \* consumer sleeps forever with the chunk pending
+                          \cup Bad(s, ln, IF e.wake_locked THEN Enforce \cap {"C10"} ELSE {}, "wake() inside the critical section")]
 
 OnFinal(s, e, ln) ==
   IF ~s.built THEN s
